@@ -536,6 +536,19 @@ def mon_c13(ix: Index):
             first_inv = any(x["kind"] == "fn_exit" and x.get("fnkind") == "check" and x["path"] == e["path"] and x["inv"] == e["inv"] for x in ix.by_inv.get(e["inv"], []))
             if first_inv and ln is not None and e.get("val") != ln:
                 out.append(V("C13", "C13/result-not-last-state", "%s returned %s, last state %s" % (e["path"], e.get("val"), ln), e["i"]))
+    # a failed condition (its check raised and the call delivered that failure to the workflow) is never polled again
+    raised_in: dict[str, int] = {}  # path -> invocation in which its check raised
+    failed: dict[str, int] = {}  # path -> trace index at which the failure was delivered to user code
+    for e in ix.trace:
+        if e["kind"] == "fn_exit" and e.get("fnkind") == "check" and str(e.get("outcome", "")).startswith("raise:"):
+            raised_in[e["path"]] = e["inv"]
+        elif e["kind"] == "exc" and e.get("opkind") == "wfc" and raised_in.get(e["path"]) == e["inv"] and e["path"] not in failed:
+            failed[e["path"]] = e["i"]
+            n += 1
+        elif e["kind"] == "fn_enter" and e.get("fnkind") == "check" and e["path"] in failed:
+            out.append(V("C13", "C13/failed-condition-polled-again",
+                         "%s: its check raised and the failure was delivered to the workflow (event %d), yet it is polled again in invocation %d (backend status %s)"
+                         % (e["path"], failed[e["path"]], e["inv"], e.get("st")), e["i"]))
     ix.r.setdefault("stats", {})["c13_events"] = n
     return out
 
